@@ -27,6 +27,7 @@ import Sudachi.Model.Codec
 import Sudachi.Model.CodecBuild
 import Sudachi.Model.Trie
 import Sudachi.Model.BuildIO
+import Sudachi.Model.BuildLoad
 import Sudachi.Model.RecycleIO
 import Sudachi.Model.Total
 import Sudachi.Model.TotalIO
@@ -58,7 +59,7 @@ def answer (line : String) : String :=
     | "C12" => Layers.handle op rest
     | "C05" => Codec.handle rest
     | "C04" => Trie.handle op rest
-    | "C06" => Build.handle rest
+    | "C06" => BuildLoad.handle rest
     | "C10" => if op = "pysess".toList then Recycle.IO.handlePy rest else Recycle.IO.handle rest
     | "C03" => TotalIO.handle op rest
     | _ => "bad-op"
